@@ -26,6 +26,7 @@ FINDING_KEYS = {
     "inv_during_sub": "caller-invariant-checked-during-sub-behaviour",
     "nested_return": "nested-try-return-does-not-end-behavior",
     "rvltl": "rvltl-until-offset",
+    "rvltl_compositional": "rvltl-until-commits-to-first-truthy-right-operand",
     "dynltl_ignored": "dynamic-temporal-require-in-compose",
 }
 
